@@ -6,6 +6,7 @@ import ast
 import itertools
 from fractions import Fraction as Fr
 
+from ..forks import Fork
 from ..core import Report, Undecided, AnalysisError
 from ..srcmodel import Model, return_exprs, bind_call
 from ..forks import explore
@@ -490,6 +491,14 @@ def _offsets(rep, model):
                 return lambda x: PA.abs_nf(to_rat(x), signs)
             return NAHooks.atom1(self, name)
 
+        def maxmin(self, I, name, x, y):
+            x, y = to_rat(x), to_rat(y)
+            sg = PA.rat_sign(x - y, signs)
+            if sg is None:
+                return NAHooks.maxmin(self, I, name, x, y)
+            big, small = (x, y) if sg >= 0 else (y, x)
+            return big if name.startswith('max') else small
+
         def on_getattr(self, interp, obj, name):
             if isinstance(obj, Rec) and name in obj.attrs:
                 return obj.attrs[name]
@@ -530,7 +539,7 @@ def _offsets(rep, model):
                               % (tuple(got), tuple(want)), DOPS, fn.lineno)
             else:
                 rep.holds('R4b', tag, 'offset %r' % (tuple(want),))
-        except Undecided as e:
+        except (Undecided, Fork) as e:
             rep.undecided('R4b', tag, str(e), DOPS, fn.lineno)
         except PyRaise as e:
             rep.violation('R4b', tag, 'raises %s' % e.name, DOPS, fn.lineno)
